@@ -1009,7 +1009,16 @@ func (x *Exec) entryObjFact(st *State, o *Term) {
 		t = t.Args[0]
 	}
 	if t.Op == "const" && strings.HasSuffix(t.Name, "@0") && o.Op == "select" && !o.bound {
-		st.assumeBound(x, o, new(big.Int), nil)
+		// ... provided the object that holds the reference existed at entry itself: the entry
+		// heap says nothing about the fields of an object allocated since (by this function or by
+		// a callee whose fresh result it is)
+		holder := o
+		for holder.Args[0].Op == "select" {
+			holder = holder.Args[0]
+		}
+		if lo, _ := x.b.Bounds(holder.Args[1]); lo != nil && lo.Sign() >= 0 {
+			st.assumeBound(x, o, new(big.Int), nil)
+		}
 		return
 	}
 	if o.Op == "select" && !o.bound {
